@@ -8,6 +8,7 @@ import (
 	"os"
 	"os/exec"
 	"path/filepath"
+	"regexp"
 	"sort"
 	"strconv"
 	"strings"
@@ -204,7 +205,7 @@ func mutate(t *rapid.T, root map[string]any) (string, []string) {
 		w    int
 	}
 	ops := []op{{"delete-elem", 2}, {"disc-mapping", 2}, {"delete", 4}, {"null", 3}, {"swap", 4}, {"drop-schema", 3}, {"schema-to-content", 2}, {"drop-items", 2}, {"server-var", 2},
-		{"bad-ref", 3}, {"cyclic-ref", 2}, {"bad-type", 2}, {"empty-map", 2}, {"param-missing", 2}, {"status-pattern", 1}, {"dup-path-var", 1}}
+		{"bad-ref", 3}, {"cyclic-ref", 2}, {"extension", 2}, {"empty-security-requirement", 1}, {"forward-array-component", 1}, {"servers", 1}, {"bad-type", 2}, {"empty-map", 2}, {"param-missing", 2}, {"status-pattern", 1}, {"dup-path-var", 1}}
 	var names []string
 	for _, o := range ops {
 		for i := 0; i < o.w; i++ {
@@ -327,6 +328,71 @@ func mutate(t *rapid.T, root map[string]any) (string, []string) {
 			s.set(map[string]any{"$ref": "#/components/schemas/CycA"})
 		}
 		return "cyclic-ref", []string{"components", "schemas", "CycA"}
+	case "extension":
+		// goag's own vendor extensions with values it does not expect
+		var schemas []site
+		for _, s := range sites {
+			if m, ok := s.get().(map[string]any); ok {
+				if ty, _ := m["type"].(string); ty != "" && m["in"] == nil {
+					schemas = append(schemas, s)
+				}
+			}
+		}
+		if s, ok := pick(schemas); ok {
+			m := s.get().(map[string]any)
+			k := rapid.SampledFrom([]string{"x-goag-go-type", "x-goag-go-time-format", "x-goag-unknown"}).Draw(t, "ext_key")
+			m[k] = rapid.SampledFrom([]any{"github.com/foo/Bar", "github.com/foo/bar.Baz", "", ".", "a.", ".b", "a/b/c", "a/b.c/d", "time.Time", "[]byte", "pkg.Type", "../x.Y", "a b.c", "*net/url.URL", "map[string]any",
+				float64(123), nil, true, []any{"a"}, map[string]any{"a": "b"}, "time.RFC1123", "\"2006\""}).Draw(t, "ext_val")
+			if rapid.Bool().Draw(t, "ext_datetime") {
+				m["type"], m["format"] = "string", "date-time"
+			}
+			return "extension:" + k, s.path
+		}
+	case "empty-security-requirement":
+		// `{}` inside a security list is OpenAPI's way to say "or anonymous"
+		reqs := []any{map[string]any{}}
+		if rapid.Bool().Draw(t, "sec_two") {
+			names := []string{}
+			if comps, _ := root["components"].(map[string]any); comps != nil {
+				if ss, _ := comps["securitySchemes"].(map[string]any); ss != nil {
+					for n := range ss {
+						names = append(names, n)
+					}
+					sort.Strings(names)
+				}
+			}
+			if len(names) > 0 {
+				reqs = append(reqs, map[string]any{names[0]: []any{}})
+			}
+		}
+		if s, ok := pick(byKey("responses")); ok && rapid.Bool().Draw(t, "sec_on_operation") {
+			s.parent.(map[string]any)["security"] = reqs
+			return "empty-security-requirement", append(append([]string{}, s.path[:len(s.path)-1]...), "security")
+		}
+		root["security"] = reqs
+		return "empty-security-requirement", []string{"security"}
+	case "forward-array-component":
+		// a component array whose items reference a component that sorts after it (or itself)
+		comps, _ := root["components"].(map[string]any)
+		if comps == nil {
+			comps = map[string]any{}
+			root["components"] = comps
+		}
+		schemas, _ := comps["schemas"].(map[string]any)
+		if schemas == nil {
+			schemas = map[string]any{}
+			comps["schemas"] = schemas
+		}
+		schemas["ZzItem"] = map[string]any{"type": "object", "properties": map[string]any{"a": map[string]any{"type": "string"}}}
+		target := rapid.SampledFrom([]string{"ZzItem", "AaList"}).Draw(t, "fwd_target")
+		schemas["AaList"] = map[string]any{"type": "array", "items": map[string]any{"$ref": "#/components/schemas/" + target}}
+		if s, ok := pick(byKey("schema")); ok && rapid.Bool().Draw(t, "use_list") {
+			s.set(map[string]any{"$ref": "#/components/schemas/AaList"})
+		}
+		return "forward-array-component:" + target, []string{"components", "schemas", "AaList"}
+	case "servers":
+		root["servers"] = rapid.SampledFrom([]any{[]any{nil}, []any{map[string]any{"url": "/v1"}, nil}, []any{map[string]any{}}, []any{map[string]any{"url": nil}}, []any{map[string]any{"url": "{a}", "variables": map[string]any{"a": nil}}}}).Draw(t, "servers_val")
+		return "servers", []string{"servers"}
 	case "bad-type":
 		if s, ok := pick(byKey("type", "format")); ok {
 			s.set(rapid.SampledFrom([]string{"null", "uuid", "decimal", "file", "float", "int8", ""}).Draw(t, "badtype"))
@@ -415,6 +481,10 @@ func namedElements(node any, out map[string]bool, parentKey string) {
 }
 
 func mentionsElement(errText string, names map[string]bool) (string, bool) {
+	// entries of the top-level servers list have no name; their index is their location
+	if m := serverIndexRe.FindString(errText); m != "" {
+		return m, true
+	}
 	for n := range names {
 		if len(n) >= 1 && strings.Contains(errText, n) {
 			// single characters are too weak a witness unless delimited
@@ -426,6 +496,8 @@ func mentionsElement(errText string, names map[string]bool) (string, bool) {
 	}
 	return "", false
 }
+
+var serverIndexRe = regexp.MustCompile(`\bserver \d+\b`)
 
 // ---- worker ---------------------------------------------------------------
 
